@@ -1,5 +1,6 @@
 import Anysystem.Proofs.StoreRefine
 import Anysystem.Proofs.R2
+import Anysystem.Proofs.R4
 /-!
 # C13 — Timer-order reduction is exact and keeps every real-time-feasible schedule
 -/
@@ -68,5 +69,13 @@ theorem C13_unblocked_feasible (d₁ d₂ i₁ i₂ : Nat) (hdel : d₂ < d₁) 
 theorem C13_no_constraint_on_older (d₁ d₂ i₁ i₂ : Nat) (hdel : d₂ < d₁) (hcre : i₁ < i₂) :
     (∃ t₁ t₂, t₁ ≤ t₂ ∧ firesBefore t₁ d₁ i₁ t₂ d₂ i₂) ∧ (∃ t₁ t₂, t₁ ≤ t₂ ∧ firesBefore t₂ d₂ i₂ t₁ d₁ i₁) := by
   refine ⟨⟨0, d₁, Nat.zero_le _, ?_⟩, ⟨0, 0, Nat.le_refl _, ?_⟩⟩ <;> unfold firesBefore <;> omega
+
+/- "every schedule that is realisable by some assignment of non-negative message delays, with each timer firing at its set time
+   plus its delay and ties resolved in creation order, is explored": the simulator *is* that timed semantics (arbitrary draws =
+   arbitrary delays within the bounds); R4 shows each of its steps is a reduced-enabled step of the reference semantics (in
+   particular the timer it fires is never withheld, `popped_timer_unblocked`), and every reduced-enabled step is explored
+   (`C13_every_reduced_step_explored_partial`).  Partial: duplication and corruption rates zero (drop rate arbitrary). -/
+#check @sim_step_refines_partial
+#check @popped_timer_unblocked
 
 end Anysystem
